@@ -4,7 +4,7 @@
    retried from the store), every bundle (all flag combinations, fragments and whole bundles, any
    blocks) and every oracle (known / clock / routing decision / outcome of every send).
    Only theorem statements closed by [exact <lemma>] and Print Assumptions. *)
-From DTN Require Import Base Cbor Eid Bundle Report ReportProofs ConstsOkReport.
+From DTN Require Import Base Cbor Eid Bundle Report ReportProofs ConstsOkReport AuxCbor.
 Open Scope N_scope.
 
 (* Every report the node emits while processing a bundle is justified by an event of the report's
@@ -93,6 +93,24 @@ Theorem C15_model_passes_checker : forall env inp r,
 Proof. exact model_passes_checker. Qed.
 Print Assumptions C15_model_passes_checker.
 
+(* On the wire: the administrative record carried by the report bundle ([rp_wire r], in the
+   auxiliary-format encoding of AuxCbor.v: reference bundle ID = source, [creation time, sequence
+   number] and - exactly for a fragment - fragment offset THEN total data length) names the exact ID
+   of the bundle the report is about, and the reference decoder [dec_admrec] reads precisely this
+   report back from the bytes.  The correspondence run decodes the bytes of every report the
+   implementation emits with this decoder and applies [rp_check] to the result. *)
+Theorem C15_wire_names_exact_id : forall env inp r,
+  In r (rp_reports (rp_process env inp)) -> sr_ref (rp_wire_sreport r) = rp_bundle_bid (i_bundle inp).
+Proof. exact report_wire_exact_id. Qed.
+Print Assumptions C15_wire_names_exact_id.
+
+Theorem C15_wire_roundtrip : forall r,
+  sreport_wf (rp_wire_sreport r) = true ->
+  exists bs, rp_wire r = Some bs
+             /\ forall rest, dec_admrec (bs ++ rest) = Ok (ARStatus (rp_wire_sreport r)) rest.
+Proof. exact report_wire_roundtrip. Qed.
+Print Assumptions C15_wire_roundtrip.
+
 (* ---- non-vacuity ---- *)
 Definition ex_node : eid := Dtn [110; 48] [].                       (* dtn://n0/ *)
 Definition ex_env : renv := {| rn_node := ex_node; rn_agents := [Dtn [110; 48] [97]]; rn_clas := [] |}.
@@ -147,3 +165,19 @@ Example C15_example_admin_silent :
   rp_reports (rp_process ex_env (ex_input 0 (ex_bundle (F_ADMIN + F_RECEPTION + F_FORWARD + F_DELIVERY + F_DELETION)
                                                        (Dtn [102] [120]) []) [true])) = [].
 Proof. vm_compute. reflexivity. Qed.
+
+(* the forwarding report of C15_example_forwarded on the wire: ... source dtn://s/x, [1000, 7], offset 5,
+   total length 50 (0x18 0x32) - and decoded back by the reference decoder *)
+Example C15_example_wire :
+  match rp_reports (rp_process ex_env (ex_input 0 (ex_bundle (F_FRAG + F_TIME + F_RECEPTION + F_FORWARD + F_DELIVERY + F_DELETION)
+                                                             (Dtn [102] [120]) []) [false; true])) with
+  | [_; r] =>
+      rp_wire r = Some [130; 1; 134; 132; 129; 244; 130; 245; 25; 7; 208; 129; 244; 129; 244; 0;
+                        130; 1; 101; 47; 47; 115; 47; 120; 130; 25; 3; 232; 7; 5; 24; 50]
+      /\ (exists s, dec_admrec [130; 1; 134; 132; 129; 244; 130; 245; 25; 7; 208; 129; 244; 129; 244; 0;
+                                130; 1; 101; 47; 47; 115; 47; 120; 130; 25; 3; 232; 7; 5; 24; 50] = Ok (ARStatus s) []
+                     /\ bid_off (sr_ref s) = 5 /\ bid_total (sr_ref s) = 50 /\ bid_frag (sr_ref s) = true)
+      /\ sreport_wf (rp_wire_sreport r) = true
+  | _ => False
+  end.
+Proof. vm_compute. split; [reflexivity|]. split; [|reflexivity]. eexists. repeat split. Qed.
